@@ -133,6 +133,9 @@ func pickCfg(r *rand.Rand, mode int64, big bool) gcfg {
 		ds = ln + 1 + r.Int63n(ln)
 		procs = 1 + r.Int63n(9000)
 	}
+	if mode == 2 && r.Intn(4) == 0 {
+		mode = 1 // NOP94: the same dialect as ICWS94
+	}
 	return gcfg{mode, m, procs, 80000, m, m, ln, ds}
 }
 
@@ -317,6 +320,14 @@ func genProg(w *bufio.Writer, r *rand.Rand, n int, o progOpts, big bool) {
 func addFors(r *rand.Rand, items [][]int64, o progOpts) [][]int64 {
 	budget := 40
 	next := int64(80)
+	var countEqus [][]int64
+	nextEqu := int64(70)
+	newEqu := func(e *gexpr) int64 {
+		id := nextEqu
+		nextEqu++
+		countEqus = append(countEqus, e.enc([]int64{1, id}))
+		return id
+	}
 	var build func(depth int, mult int) []int64
 	build = func(depth int, mult int) []int64 {
 		cnt := r.Intn(7)
@@ -333,7 +344,42 @@ func addFors(r *rand.Rand, items [][]int64, o progOpts) [][]int64 {
 			out = append(out, 0)
 		}
 		out = append(out, counter)
-		out = (&gexpr{kind: 0, n: int64(cnt)}).enc(out)
+		// the count: a literal, or an expression over an EQU name whose value is compound
+		// (textual substitution: with e equ x+y, e*2 is x+y*2 and k-e is k-x+y)
+		switch r.Intn(5) {
+		case 0:
+			x := r.Intn(cnt + 1)
+			id := newEqu(&gexpr{kind: 4, op: 0, a: &gexpr{kind: 0, n: int64(x)}, b: &gexpr{kind: 0, n: int64(cnt - x)}})
+			out = (&gexpr{kind: 1, n: id}).enc(out)
+		case 1:
+			y := r.Intn(cnt/2 + 1)
+			id := newEqu(&gexpr{kind: 4, op: 0, a: &gexpr{kind: 0, n: int64(cnt - 2*y)}, b: &gexpr{kind: 0, n: int64(y)}})
+			out = (&gexpr{kind: 4, op: 2, a: &gexpr{kind: 1, n: id}, b: &gexpr{kind: 0, n: 2}}).enc(out)
+		case 2:
+			// k - e with e equ x+y  ==  k - x + y  (must equal cnt)
+			x := r.Intn(4)
+			y := r.Intn(3)
+			k := cnt + x - y
+			if k < 0 {
+				out = (&gexpr{kind: 0, n: int64(cnt)}).enc(out)
+			} else {
+				id := newEqu(&gexpr{kind: 4, op: 0, a: &gexpr{kind: 0, n: int64(x)}, b: &gexpr{kind: 0, n: int64(y)}})
+				out = (&gexpr{kind: 4, op: 1, a: &gexpr{kind: 0, n: int64(k)}, b: &gexpr{kind: 1, n: id}}).enc(out)
+			}
+		case 3:
+			// an EQU that names another EQU twice and then a third one: e equ a*a+b
+			x := r.Intn(3)
+			for x*x > cnt {
+				x--
+			}
+			ida := newEqu(&gexpr{kind: 0, n: int64(x)})
+			idb := newEqu(&gexpr{kind: 0, n: int64(cnt - x*x)})
+			na := &gexpr{kind: 1, n: ida}
+			ide := newEqu(&gexpr{kind: 4, op: 0, a: &gexpr{kind: 4, op: 2, a: na, b: na}, b: &gexpr{kind: 1, n: idb}})
+			out = (&gexpr{kind: 1, n: ide}).enc(out)
+		default:
+			out = (&gexpr{kind: 0, n: int64(cnt)}).enc(out)
+		}
 		nb := 1 + r.Intn(2)
 		var body [][]int64
 		for i := 0; i < nb; i++ {
@@ -359,7 +405,8 @@ func addFors(r *rand.Rand, items [][]int64, o progOpts) [][]int64 {
 		blk := build(0, 1)
 		items = append(items[:pos], append([][]int64{blk}, items[pos:]...)...)
 	}
-	return items
+	// the EQUs used by counts are defined before the first FOR
+	return append(countEqus, items...)
 }
 
 // genWarriors emits kind 32: [32; cfg; style; start; n; code...] with every field legal in the dialect
